@@ -1162,13 +1162,37 @@ def copyStatus : List CStmt := %s
 
 def failFastStatus : List FFStmt := %s
 
+def taggerInit : List TIStmt := %s
+
 end TTV.Generated.DecoSrc
 ''' % (lean(st.out('__out__')), lean(qr.out('__out__')), ', '.join(orders),
        '(.other, .other)' if qd is None else ', '.join(qd),
        lean(copy_stmts(find(tree, 'CopyStreamResult', 'startTestRun'), 'startTestRun')),
        lean(copy_stmts(find(tree, 'CopyStreamResult', 'stopTestRun'), 'stopTestRun')),
        lean(copy_stmts(find(tree, 'CopyStreamResult', 'status'), 'status')),
-       failfast_stmts(find(tree, 'StreamFailFast', 'status')))
+       failfast_stmts(find(tree, 'StreamFailFast', 'status')),
+       lean(tagger_init_stmts(find(tree, 'StreamTagger', '__init__'))))
+
+
+def tagger_init_stmts(fn):
+    """`StreamTagger.__init__` -> [TIStmt]: the configuration is a VALUE taken when the tagger is made (a frozenset snapshot of
+    whatever iterable was passed), not the caller's object"""
+    out = []
+    if [a.arg for a in fn.args.args] != ['self', 'targets', 'add', 'discard'] or [ast.unparse(d) for d in fn.args.defaults] != ['None', 'None']:
+        out.append(OTHER)
+    snap = lambda name: ['self.%s = frozenset(%s or %s)' % (name, name, e) for e in ('()', 'frozenset()', 'set()', '[]')] + \
+        ['self.%s = frozenset(%s) if %s else frozenset()' % (name, name, name), 'self.%s = frozenset(() if %s is None else %s)' % (name, name, name)]
+    for s in body_of(fn):
+        src = ast.unparse(s)
+        if src == 'super().__init__(targets)':
+            out.append(('superInit',))
+        elif src in snap('add'):
+            out.append(('snapshotAdd',))
+        elif src in snap('discard'):
+            out.append(('snapshotDiscard',))
+        else:
+            out.append(OTHER)
+    return out
 
 
 def generate_deco(repo):
